@@ -88,6 +88,51 @@ func implSticky(top hv.L) hv.Val {
 	return out
 }
 
+func kconf(v hv.Val) cluster_table_conf.SubClusterBackend {
+	var bs []bk
+	for _, e := range hv.AsList(v) {
+		p := hv.AsList(e)
+		bs = append(bs, bk{hv.AsStr(p[0]), int(hv.AsInt(p[1])), true})
+	}
+	return mkConf(bs)
+}
+
+// reload history on one BalanceRR
+func implHist(top hv.L) hv.Val {
+	brr := bal_slb.NewBalanceRR("sub")
+	brr.Init(kconf(top[1]))
+	out := hv.L{}
+	for _, ov := range hv.AsList(top[2]) {
+		op := hv.AsList(ov)
+		switch hv.AsInt(op[0]) {
+		case 0:
+			key := hv.AsBytes(op[2])
+			if hv.String(op[1]) != hv.String(hv.U(murmur3.Sum64(key))) {
+				return hv.Err(7)
+			}
+			b, err := brr.Balance(bal_slb.WrrSticky, key)
+			if err != nil || b == nil {
+				out = append(out, hv.I(-1))
+			} else {
+				out = append(out, hv.S(b.AddrInfo))
+			}
+		case 1:
+			brr.Update(kconf(op[1]))
+			out = append(out, hv.I(0))
+		case 2:
+			for _, b := range bal_slb.VerifC02Backends(brr) {
+				if b.AddrInfo == hv.AsStr(op[1]) {
+					b.SetAvail(hv.AsBool(op[2]))
+				}
+			}
+			out = append(out, hv.I(0))
+		default:
+			panic("bad op")
+		}
+	}
+	return out
+}
+
 type sub struct {
 	name string
 	w    int
@@ -119,7 +164,7 @@ func reorder(bs []bk, variant int) []bk {
 	return out
 }
 
-func buildGslb(subs []sub, variant int) *bal_gslb.BalanceGslb {
+func buildGslb(subs []sub, variant int, warm func(*bal_gslb.BalanceGslb)) *bal_gslb.BalanceGslb {
 	full := gslb_conf.GslbClusterConf{}
 	backs := cluster_table_conf.ClusterBackend{}
 	for _, s := range subs {
@@ -144,11 +189,20 @@ func buildGslb(subs []sub, variant int) *bal_gslb.BalanceGslb {
 		for i, s := range subs {
 			if i == firstPos || i%2 == 1 {
 				part[s.name] = s.w + 3
-				pb[s.name] = mkConf(s.bs)
+				// only every second backend at first: BackendReload (BalanceRR.Update) adds the others,
+				// some of which sort before the ones already there
+				var half []bk
+				for j, b := range s.bs {
+					if j%2 == 1 {
+						half = append(half, b)
+					}
+				}
+				pb[s.name] = mkConf(half)
 			}
 		}
 		bal.Init(part)
 		bal.BackendInit(pb)
+		warm(bal) // sticky picks sort the backend lists before the reload
 		bal.Reload(full)
 		bal.BackendReload(backs)
 	case variant == 2: // other weights first
@@ -168,6 +222,7 @@ func buildGslb(subs []sub, variant int) *bal_gslb.BalanceGslb {
 		sup["zz-extra"] = 5
 		bal.Init(sup)
 		bal.BackendInit(backs)
+		warm(bal)
 		bal.Reload(full)
 		bal.BackendReload(backs)
 	}
@@ -232,9 +287,17 @@ func implGslb(top hv.L) hv.Val {
 	nvar := int(hv.AsInt(top[5]))
 	out := hv.L{}
 	for v := 0; v < nvar; v++ {
-		bal := buildGslb(subs, v)
-		req, hc := mkReq(strategy, key)
 		cross, retry, mode := 0, 2, cluster_conf.BalanceModeWrr
+		warm := func(bal *bal_gslb.BalanceGslb) {
+			// a few sticky selections with other keys before the configuration is reloaded
+			for _, k := range []string{"warm-1", "warm-22", "warm-333", "w4", "w55"} {
+				wreq, whc := mkReq(5, []byte("/"+k))
+				bal.SetGslbBasic(cluster_conf.GslbBasicConf{CrossRetry: &cross, RetryMax: &retry, HashConf: &whc, BalanceMode: &mode})
+				bal.Balance(wreq)
+			}
+		}
+		bal := buildGslb(subs, v, warm)
+		req, hc := mkReq(strategy, key)
 		bal.SetGslbBasic(cluster_conf.GslbBasicConf{CrossRetry: &cross, RetryMax: &retry, HashConf: &hc, BalanceMode: &mode})
 		b, err := bal.Balance(req)
 		name := req.Backend.SubclusterName
@@ -256,6 +319,9 @@ func implGslb(top hv.L) hv.Val {
 
 func impl(in hv.Val) hv.Val {
 	top := hv.AsList(in)
+	if hv.AsInt(top[0]) == 3 {
+		return implHist(top)
+	}
 	// the hash column must be murmur3 of the key (a replayed / shrunk input with another value is rejected)
 	key := hv.AsBytes(top[len(top)-2])
 	if hv.AsInt(top[0]) == 1 {
@@ -359,7 +425,74 @@ func boundaries(bs []bk) (map[uint64]bool, uint64) {
 	return set, tot
 }
 
+func kwVal(bs []bk) hv.Val {
+	l := hv.L{}
+	for _, b := range bs {
+		l = append(l, hv.L{hv.S(b.addrinfo), hv.I(b.w)})
+	}
+	return l
+}
+
+// a random sub-list of the pool in random order with fresh weights
+func subConf(r *hv.Rng, pool []bk, atLeast int) []bk {
+	var out []bk
+	for _, b := range pool {
+		if r.Chance(2, 3) {
+			w := r.Range(1, 5)
+			if r.Chance(1, 10) {
+				w = -r.Intn(2)
+			}
+			out = append(out, bk{b.addrinfo, w, true})
+		}
+	}
+	for len(out) < atLeast {
+		b := pool[r.Intn(len(pool))]
+		dup := false
+		for _, x := range out {
+			if x.addrinfo == b.addrinfo {
+				dup = true
+			}
+		}
+		if !dup {
+			out = append(out, bk{b.addrinfo, r.Range(1, 5), true})
+		}
+	}
+	for a := len(out) - 1; a > 0; a-- {
+		b := r.Intn(a + 1)
+		out[a], out[b] = out[b], out[a]
+	}
+	return out
+}
+
+func genHist(r *hv.Rng) (string, hv.Val) {
+	pool := genBackends(r, r.Range(2, 8))
+	conf0 := subConf(r, pool, 1)
+	ops := hv.L{}
+	pick := func() {
+		key := genKey(r, -1)
+		ops = append(ops, hv.L{hv.I(0), hv.U(murmur3.Sum64(key)), hv.B(key)})
+	}
+	pick() // the first sticky call sorts the list and sets the `sorted` flag
+	steps := r.Range(2, 8)
+	for s := 0; s < steps; s++ {
+		switch r.Intn(5) {
+		case 0, 1, 2:
+			ops = append(ops, hv.L{hv.I(1), kwVal(subConf(r, pool, 0))})
+		case 3:
+			ops = append(ops, hv.L{hv.I(2), hv.S(pool[r.Intn(len(pool))].addrinfo), hv.Bool(r.Chance(1, 3))})
+		}
+		n := r.Range(1, 3)
+		for j := 0; j < n; j++ {
+			pick()
+		}
+	}
+	return "history", hv.L{hv.I(3), kwVal(conf0), ops}
+}
+
 func gen(r *hv.Rng, i int, tier string) (string, hv.Val) {
+	if r.Chance(1, 3) {
+		return genHist(r)
+	}
 	if r.Chance(1, 2) {
 		// direct sticky on permutations
 		n := r.Range(1, 6)
